@@ -114,7 +114,8 @@ CLAIMED = {
          "ones; subsumption is implication; normalisation preserves the meaning of the store; the store's meaning is order-free. WHOLE "
          "PROGRAMS (soundness): for any goal, search kind, fuel and number of steps, every valuation that solves a delivered answer "
          "(its substitution and every stored disequality) satisfies the logical reading of the program (== equality, != difference, "
-         "conjunction, disjunction, relation calls by their bodies) and solves the starting state.",
+         "conjunction, disjunction, relation calls by their bodies) and solves the starting state. Completeness per operation: posting != and "
+         "re-checking the store lose no solution and fail only when none exists (DisunifyC, FDComp).",
          "6/C02", "Coq proof: denotation of disequality posting, re-check, subsumption, normalisation + whole-program logical soundness of delivered answers (via the declarative semantics) + differential correspondence + ground-instance oracle",
          "The completeness direction for whole programs (every ground solution of the program is an instance of some answer) is checked by the ground oracle over a finite universe, not proved."),
  "C03": ("Theorems: reported constraints mention only reified variables of the answer; constraints() returns exactly the reported "
@@ -155,12 +156,18 @@ CLAIMED = {
          "(membership semantics), compositionally for disjunction and conjunction; and, declaratively, every answer the engine delivers "
          "for ANY goal (both search kinds, any fuel, any number of steps) is derivable in a big-step semantics of goals that knows nothing "
          "of streams (conjunction = composition, disjunction = union, calls = constructed bodies), with a substitution extending the "
-         "starting one.",
+         "starting one; conversely, on the pure relational fragment every derivable answer is delivered after finitely many steps "
+         "(FairProofs.fair_complete), so there the delivered answers are exactly the derivable ones.",
          "6/C06", "Coq proof: backward preservation of reference stream semantics + soundness w.r.t. a declarative big-step semantics (all goals) + step-exact correspondence",
          "Equality of the multisets of the dfs{} twin and the interleaved program (completeness direction) is checked on the implementation and against the Python reference, not proved."),
  "C07": ("Theorems with explicit bounds: an answer available within n micro-steps of either operand is delivered within 4n+2 / 4n micro-steps "
          "of the interleaving merge whatever the other operand does; a fair bound for bind; completeness for every derivation through "
-         "interleaving nodes. 'Delivered' means delivered unless a single engine step fails to return.",
+         "interleaving nodes. 'Delivered' means delivered unless a single engine step fails to return. AT THE LEVEL OF GOALS "
+         "(FairProofs, PureElab): for the pure relational fragment (interleaving conjunction/disjunction, match, loop, fresh, closures, "
+         "relation calls, for-all, project, all constraints; no conda/condu/onceo, no dfs block), any definitions and nesting depth, an "
+         "answer that one clause delivers on its own is delivered by the whole disjunction after finitely many steps whatever the other "
+         "clauses do, an answer of the second conjunct started in an answer of the first is delivered by the conjunction, and every "
+         "answer derivable in the declarative semantics is delivered (search completeness, converse of C06's soundness).",
          "6/C07", "Coq proof: quantitative fairness of mplus/bind and completeness of interleaving search + step-exact correspondence incl. diverging branches",
          "A single step that itself diverges (error stream in the model) is outside the statement, as in the property text."),
  "C08": ("Theorems: conda/condu/onceo are equationally what the property says in terms of the matured head stream; maturing takes micro-steps "
